@@ -22,6 +22,13 @@ theorem C03_order_post (c : RefCfg) (ev : Visit α → σ → EvalOut × σ) (hp
     processRoot c ev root acc = (let r := refRoot c ev root ⟨acc, 0, 0⟩; resOf r.1 r.2) :=
   processRoot_post c ev hpost root hH acc
 
+/-- Post-order for every starting point and every evaluator: no configuration is excepted any more
+    (`processRoot_postAny`; until `/repo` c5fa7bc a link to a directory under -H was). -/
+theorem C03_order_post_any (c : RefCfg) (ev : Visit α → σ → EvalOut × σ) (hpost : c.depthFirst = true)
+    (root : Node α) (acc : σ) :
+    processRoot c ev root acc = (let r := refRoot c ev root ⟨acc, 0, 0⟩; resOf r.1 r.2) :=
+  processRoot_postAny c ev hpost root acc
+
 /-- The shape of the reference in pre-order: the directory is evaluated first; if that asks to
     prune, nothing below it is visited and the walk continues with whatever follows the directory
     (its siblings, other subtrees) — exactly that directory's descendants are left out. -/
@@ -118,5 +125,45 @@ example :
     (run .never [([114], some t)]
       [.xdev, .tok .lp, .tok (.prim (.name [109])), .tok (.prim .prune), .tok .rp, .tok .or_, .tok (.prim (.pathOut [] [10]))]).map
         (·.gs.out) = some [114, 10, 114, 47, 97, 10, 114, 47, 122, 10] ∧ wfNode t = true := by decide +kernel
+
+/-- every directory node the walk would push (a real directory, or a link to one where links are
+    followed) lies on device `dev` -/
+def confined (followLinks : Bool) (dev : Nat) : Node Attr → Bool
+  | .leaf _ _ _ => true
+  | .dir _ l _ a kids => (!(!l || followLinks) || a.s.dev == dev) && confinedK kids
+where confinedK : List (Node Attr) → Bool
+  | [] => true
+  | n :: ns => confined followLinks dev n && confinedK ns
+
+mutual
+theorem confined_cutNode (fl : Bool) (dev : Nat) (n : Node Attr) : confined fl dev (cutNode fl dev n) = true := by
+  match n with
+  | .leaf nm k a => simp [cutNode, confined]
+  | .dir nm l r a kids =>
+    simp only [cutNode]
+    split
+    · simp [confined]
+    · rename_i h
+      simp only [confined, Bool.and_eq_true]
+      refine ⟨?_, confined_cutKids fl dev kids⟩
+      cases hc : (!l || fl) <;> simp_all
+theorem confined_cutKids (fl : Bool) (dev : Nat) (kids : List (Node Attr)) :
+    confined.confinedK fl dev (cutKids fl dev kids) = true := by
+  match kids with
+  | [] => simp [cutKids, confined.confinedK]
+  | n :: ns =>
+    simp only [cutKids, confined.confinedK, Bool.and_eq_true]
+    exact ⟨confined_cutNode fl dev n, confined_cutKids fl dev ns⟩
+end
+
+/-- **`-xdev` confines the walk.**  In the tree `-xdev` presents (`cutRoot`), every directory below
+    the starting point whose listing the walk pushes lies on the starting point's device: a
+    directory elsewhere is an entry (it is reported) that is never entered.  With C02's refinement
+    (the visits are those of the reference traversal of this tree) nothing on another file system
+    is visited except the mount points themselves. -/
+theorem C03_xdev_confined (f : Follow) (nm : Name) (l r : Bool) (a : Attr) (kids : List (Node Attr)) :
+    ∃ kids', cutRoot f (.dir nm l r a kids) = .dir nm l r a kids' ∧
+      confined.confinedK (f == .always) a.s.dev kids' = true :=
+  ⟨cutKids (f == .always) a.s.dev kids, rfl, confined_cutKids _ _ _⟩
 
 end FuModel.Find.Run
